@@ -824,7 +824,7 @@ func genCase(t *rapid.T) Case {
 	return c
 }
 
-var prop = &ev.Prop[Case]{Sub: "layers", Quick: 24000, Thorough: 1200000, Gen: genCase, Check: check}
+var prop = &ev.Prop[Case]{Sub: "layers", Quick: 200000, Thorough: 1200000, Gen: genCase, Check: check}
 
 func TestRegress(t *testing.T) { prop.Regress(t) }
 func TestReplay(t *testing.T)  { prop.Replay(t) }
